@@ -24,13 +24,16 @@ def run(tier, seed):
     odd = session.base(Names=["a", "LONG", "NUL", "HIGH"], BadNames=[".."], AttachNames=["", "LONG"], Kinds=NAMEK, InitWorld="empty")
     mix = session.base(Names=["a", "b", "s", "k"], BadNames=[], AttachNames=["", "s/a", "a/b"], InitWorld="mix",
                        Kinds=["Tattach", "Twalk", "Twalkgetattr", "Tclunk", "Tmkdir", "Tlcreate"])
+    # walks from fids that were bound by a create / mkdir (the server's cached type comes from the create, not from a walk)
+    crw = session.base(Names=["a", "b"], BadNames=[], AttachNames=[""], InitWorld="empty", MaxDepth=3,
+                       Kinds=["Tattach", "Tlcreate", "Tmkdir", "Twalk", "Twalkgetattr"])
     bad2 = session.base(BadNames=BAD2, AttachNames=[""], Kinds=NAMEK)
     if tier == "quick":
         mc = [("bad-d3", dict(bad, MaxDepth=3)), ("mix-d3", dict(mix, MaxDepth=3))]
-        gen = [("bad-d2", dict(bad, MaxDepth=2), "bfs"), ("bad2-d2", dict(bad2, MaxDepth=2), "bfs"), ("odd-d2", dict(odd, MaxDepth=2), "bfs"), ("mix-d3", dict(mix, MaxDepth=3), "bfs")]
+        gen = [("bad-d2", dict(bad, MaxDepth=2), "bfs"), ("bad2-d2", dict(bad2, MaxDepth=2), "bfs"), ("create-walk-d3", crw, "bfs"), ("odd-d2", dict(odd, MaxDepth=2), "bfs"), ("mix-d3", dict(mix, MaxDepth=3), "bfs")]
     else:
         mc = [("bad-d4", dict(bad, MaxDepth=4)), ("mix-d4", dict(mix, MaxDepth=4))]
-        gen = [("bad-d3", dict(bad, MaxDepth=3), "bfs"), ("bad2-d3", dict(bad2, MaxDepth=3), "bfs"), ("odd-d3", dict(odd, MaxDepth=3), "bfs"), ("mix-d4", dict(mix, MaxDepth=4), "bfs")]
+        gen = [("bad-d3", dict(bad, MaxDepth=3), "bfs"), ("bad2-d3", dict(bad2, MaxDepth=3), "bfs"), ("create-walk-d4", dict(crw, MaxDepth=4), "bfs"), ("odd-d3", dict(odd, MaxDepth=3), "bfs"), ("mix-d4", dict(mix, MaxDepth=4), "bfs")]
     return session.run("C09", tier, seed, mc, gen, RULE, nontrivial)
 
 
